@@ -657,7 +657,22 @@ def l6(facts, rep, M):
                 if "nomt::beatree::Tree::read_transaction" in reach:
                     # the closure is invoked by the call it is passed to: find that call
                     starters.append((b, s["rv"]["name"], s.get("ln")))
-    rep.floor("L6 read-transaction starters in begin_session", len(starters), 1)
+    # the session's base root is sampled from the committed state as well: Nomt::root (and any other
+    # acquisition of Nomt.shared) must come after the guard, or the session can be based on one state and
+    # read another
+    for b, t in body.calls():
+        c = t.get("callee") or ""
+        if b == gb:
+            continue
+        if c in facts.bodies and any(cls == SHARED for (cls, _m, _ln) in M.may_acquire(c)):
+            starters.append((b, c, t.get("ln")))
+    for b in range(body.n):
+        for s in body.stmts(b):
+            if s["k"] == "assign" and s["rv"]["k"] == "agg" and s["rv"].get("ak") == "closure" and s["rv"]["name"] != (gt["args"][1].get("def") if len(gt["args"]) > 1 else None):
+                clo = s["rv"]["name"]
+                if any(cls == SHARED for (cls, _m, _ln) in M.may_acquire(clo)):
+                    starters.append((b, clo, s.get("ln")))
+    rep.floor("L6 read-transaction starters in begin_session", len(starters), 2)
     for (b, c, ln) in starters:
         n += 1
         rep.check(body.dominates(gb, b) and b != gb, "L6", short, "guard-before|%s" % c.split("::", 1)[1].split("::{closure")[0], "%s (which opens a read transaction) at %s is not preceded by the acquisition of the access read guard: a commit could start waiting for a read transaction of a session that cannot finish" % (c, ln), site=ln, detail="%s at %s after the guard" % (c.split("::", 1)[1], ln))
